@@ -8,7 +8,7 @@ import (
 // H_C15: a skiplist iterator scanning while another goroutine inserts and deletes.
 // Initial list: stable keys (never touched by the modifier) and one volatile key; all symbolic.
 // Reader: Seek(x) or SeekFirst, then Get/Next to the end, with an optional Refresh at a forked position.
-// Modifier (mod): 0 Insert(y), 1 Delete(v), 2 Delete(v);Insert(v), 3 DeleteNode(volatile node)
+// Modifier (mod): 0 Insert(y), 1 Delete(v), 2 Delete(v);Insert(v), 3 DeleteNode(volatile node), 4 Delete(v);Insert(y)
 func H_C15() {
 	s := New()
 	sb := s.MakeBuf()
@@ -30,7 +30,7 @@ func H_C15() {
 	vn, _ := s.Insert2(vIntItem(v), CompareInt, nil, sb, rf, &s.Stats)
 	mod := vBound("mod")
 	y := int(vByte("y", 0))
-	if mod == 0 {
+	if mod == 0 || mod == 4 {
 		vAssume(y != v)
 		for i := 0; i < nst; i++ {
 			vAssume(y != stable[i])
@@ -92,6 +92,9 @@ func H_C15() {
 			s.Insert2(vIntItem(v), CompareInt, nil, b, vRandFn("m"), &s.Stats)
 		case 3:
 			s.DeleteNode(vn, CompareInt, b, &s.Stats)
+		case 4: // delete the volatile key, then insert a different fresh key (e.g. right where the reader stands)
+			s.Delete(vIntItem(v), CompareInt, b, &s.Stats)
+			s.Insert2(vIntItem(y), CompareInt, nil, b, vRandFn("m"), &s.Stats)
 		}
 		vThreadDone("M")
 		wg.Done()
@@ -103,7 +106,7 @@ func H_C15() {
 		k := log[i]
 		vAssert(k >= x, "returned item is >= the seek key")
 		known := k == v
-		if mod == 0 {
+		if mod == 0 || mod == 4 {
 			known = vOr(known, k == y)
 		}
 		for j := 0; j < nst; j++ {
